@@ -2,6 +2,7 @@
 from __future__ import annotations
 
 import copy
+import dataclasses
 import inspect
 import pickle
 
@@ -37,13 +38,13 @@ MINIMUMS = {  # (tag_edits_on_transformed_copy added with the round-2 seeds)
     'quick': {'evaluations': 1000, 'set_tagged_matches': 800, 'matched_positional': 100,
               'matched_via_subclass': 300, 'tag_ops_applied': 3000, 'survival_checks': 2000,
               'tagged_value_builds': 150, 'matched_unset_argument': 100,
-              'tag_edits_on_transformed_copy': 1500},
+              'tag_edits_on_transformed_copy': 1500, 'initial_tag_sets_checked': 2000},
     'thorough': {'evaluations': 1000},
 }
 
 FNS = [kinds.node, kinds.node2, kinds.two, kinds.three, kinds.Base, kinds.Mid, kinds.target3,
        kinds.tagged_fn, kinds.tagged_pos_fn, kinds.DCTagged, kinds.posnode, kinds.PosInit,
-       sigs.g_a1_b2_va_k_vk, sigs.g_ab_c_va]
+       sigs.g_a1_b2_va_k_vk, sigs.g_ab_c_va] + kinds.TAGGED_BLOCKS
 LEAVES = [0, 1, 'a', None, True, (1, 2), 2.5, kinds.Color.RED, kinds.two]
 
 
@@ -67,6 +68,52 @@ def snapshot(root):
 
 def matches(tags, T):
   return any(issubclass(t, T) for t in tags)
+
+
+def annotation_tags(fn):
+  """{storage key: set of tags} written in the annotations of fn - read independently of fiddle."""
+  import typing
+  try:
+    target = fn.__init__ if isinstance(fn, type) and not dataclasses.is_dataclass(fn) else fn
+    hints = typing.get_type_hints(target, include_extras=True)
+    params = list(inspect.signature(fn).parameters.values())
+  except Exception:  # pylint: disable=broad-except
+    return {}
+  out = {}
+  for i, p in enumerate(params):
+    h = hints.get(p.name)
+    if h is not None and typing.get_origin(h) is typing.Annotated:
+      tags = {m for m in h.__metadata__ if isinstance(m, type) and issubclass(m, fdl.Tag)}
+      if tags:
+        out[i if p.kind == p.POSITIONAL_ONLY else p.name] = tags
+  return out
+
+
+def check_initial_tags(root, memo, acc, witness):
+  """Right after construction every Buildable carries exactly: the tags of ITS callable's
+  annotations + the explicitly added ones + those of TaggedValues passed as arguments."""
+  for n in gen.walk(root):
+    if not (isinstance(n, gen.B) and n.btype != 'TaggedValue' and n.uid in memo):
+      continue
+    b = memo[n.uid]
+    exp = {k: set(v) for k, v in annotation_tags(n.fn).items()}
+    for k, ts in n.tags.items():
+      if ts:
+        exp.setdefault(gen.normalize_key(n.fn, k) if isinstance(k, int) else k, set()).update(ts)
+    for k, c in list(n.kw.items()) + list(enumerate(n.pos)):
+      if isinstance(c, gen.B) and c.btype == 'TaggedValue':
+        kk = gen.normalize_key(n.fn, k) if isinstance(k, int) else k
+        exp.setdefault(kk, set()).update(c.tags.get('value', ()))
+    got = {k: set(v) for k, v in b.__argument_tags__.items() if v}
+    acc.obs('initial_tag_sets_checked')
+    if got != exp:
+      local = '<locals>' in getattr(n.fn, '__qualname__', '')
+      acc.violation('initial-tags-differ-from-annotations-and-explicit-tags' +
+                    (':same-qualname-callables' if local else ''),
+                    f'{getattr(n.fn, "__qualname__", n.fn)}: tags {sorted((str(k), sorted(t.__name__ for t in v)) for k, v in got.items())}, '
+                    f'expected {sorted((str(k), sorted(t.__name__ for t in v)) for k, v in exp.items())}',
+                    witness())
+      return
 
 
 def make_dag(rng):
@@ -183,10 +230,12 @@ def run_case(rng, acc):
     return d
 
   try:
-    cfg = gen.to_fiddle(root)
+    memo0 = {}
+    cfg = gen.to_fiddle(root, memo0)
   except Exception as e:  # pylint: disable=broad-except
     acc.obs('realise-failed:' + type(e).__name__)
     return
+  check_initial_tags(root, memo0, acc, witness)
   # (c) list_tags
   for sup in (False, True):
     try:
